@@ -904,6 +904,37 @@ def Optimize(
   Returns:
     An optimized node.
   """
+  kwargs = dict(
+      deps=deps,
+      lossy=lossy,
+      use_abcs=use_abcs,
+      max_union=max_union,
+      remove_mutable=remove_mutable,
+      can_do_lookup=can_do_lookup,
+  )
+  node = _OptimizeOnce(node, **kwargs)
+  if lossy or remove_mutable:
+    # Replacing unions by common superclasses, or absorbing mutated parameter
+    # types, creates new unions that the earlier passes could simplify further
+    # (e.g. into more common superclasses), so repeat until nothing changes.
+    while True:
+      optimized = _OptimizeOnce(node, **kwargs)
+      if _Same(optimized, node):
+        break
+      node = optimized
+  return node
+
+
+def _Same(node1, node2):
+  if isinstance(node1, pytd.TypeDeclUnit):  # compares by identity
+    return pytd_utils.ASTeq(node1, node2)
+  return node1 == node2
+
+
+def _OptimizeOnce(
+    node, deps, lossy, use_abcs, max_union, remove_mutable, can_do_lookup
+):
+  """One round of the optimization passes. See Optimize."""
   node = node.Visit(NormalizeGenericSelfTypes())
   node = node.Visit(RemoveDuplicates())
   node = node.Visit(SimplifyUnions())
